@@ -136,6 +136,15 @@ Definition effective_sections (own global : an (list string)) (default : list st
   | _ => match global with Value v => v | _ => default end
   end.
 
+(* [st] is what the document's `settings:` entry [gs] parses to; Settings::default() when there is no entry.
+   Used to state the per-segment results: a segment is parsed against [st] and validated against [gs]. *)
+Definition settings_link (gs : an settings_serial) (st : settings) : Prop :=
+  match gs with
+  | Value g => parse_settings g = Ok st
+  | Absent => st = default_settings
+  | Null => False
+  end.
+
 (* ---------- segments ---------- *)
 
 Definition valid_segment (gs : an settings_serial) (s : segment_serial) : bool :=
@@ -248,3 +257,30 @@ Definition has_unknown_key (d : document_serial) : bool :=
   existsb (fun a => has_keys (as_unknown a)) (an_list (ds_symbol_assignments d)) ||
   existsb (fun r => has_keys (rs_unknown r)) (an_list (ds_required_symbols d)) ||
   existsb (fun a => has_keys (ats_unknown a)) (an_list (ds_asserts d)).
+
+(* ---------- record updates used to state single-fault cases ("valid but for this one field") ---------- *)
+
+Definition sts_with_d_path (s : settings_serial) (v : an string) : settings_serial :=
+  SettingsSerial (sts_unknown s) (sts_base_path s) (sts_linker_symbols_style s) (sts_hardcoded_gp_value s) v
+    (sts_target_path s) (sts_symbols_header_path s) (sts_symbols_header_type s) (sts_symbols_header_as_array s)
+    (sts_sections_allowlist s) (sts_sections_allowlist_extra s) (sts_sections_denylist s)
+    (sts_discard_wildcard_section s) (sts_single_segment_mode s) (sts_partial_scripts_folder s)
+    (sts_partial_build_segments_folder s) (sts_alloc_sections s) (sts_noload_sections s) (sts_subalign s)
+    (sts_segment_start_align s) (sts_segment_end_align s) (sts_section_start_align s) (sts_section_end_align s)
+    (sts_sections_start_alignment s) (sts_sections_end_alignment s) (sts_wildcard_sections s) (sts_fill_value s)
+    (sts_sections_subgroups s).
+
+Definition ss_with_address (s : segment_serial) (fv : an N) (fs fo vc : an string) : segment_serial :=
+  SegmentSerial (ss_unknown s) (ss_name s) (ss_files s) fv fs fo vc (ss_dir s) (ss_gp_info s) (ss_conds s)
+    (ss_alloc_sections s) (ss_noload_sections s) (ss_subalign s) (ss_segment_start_align s)
+    (ss_segment_end_align s) (ss_section_start_align s) (ss_section_end_align s)
+    (ss_sections_start_alignment s) (ss_sections_end_alignment s) (ss_wildcard_sections s) (ss_fill_value s)
+    (ss_sections_subgroups s) (ss_keep s).
+
+Definition ss_with_gp_info (s : segment_serial) (g : an gp_serial) : segment_serial :=
+  SegmentSerial (ss_unknown s) (ss_name s) (ss_files s) (ss_fixed_vram s) (ss_fixed_symbol s)
+    (ss_follows_segment s) (ss_vram_class s) (ss_dir s) g (ss_conds s)
+    (ss_alloc_sections s) (ss_noload_sections s) (ss_subalign s) (ss_segment_start_align s)
+    (ss_segment_end_align s) (ss_section_start_align s) (ss_section_end_align s)
+    (ss_sections_start_alignment s) (ss_sections_end_alignment s) (ss_wildcard_sections s) (ss_fill_value s)
+    (ss_sections_subgroups s) (ss_keep s).
